@@ -1118,12 +1118,7 @@ func (h *hist) liveObs() storeObs { return observe(h.store, h.levels) }
 // runOp executes one history operation, emits its protocol line, checks its images and (maybe) dies.
 // exec returns the op line suffix computed after execution (e.g. sizes) and the output prefix.
 func (h *hist) runOp(name string, dieAllowed bool, exec func() (opLine, outPrefix string, withState bool)) {
-	h.sess.ops = nil
-	h.imgs = nil
-	before := h.lastObs
-	if name == "createfam" {
-		h.takeImage(false) // the cut before the first FS operation: the family must still be creatable
-	}
+	before := h.beginOp(name)
 	var opLine, out string
 	out = h.guard(name, func() string {
 		ol, prefix, withState := exec()
@@ -1137,11 +1132,37 @@ func (h *hist) runOp(name string, dieAllowed bool, exec func() (opLine, outPrefi
 	if opLine == "" {
 		opLine = name
 	}
+	h.finishOp(name, opLine, out, before, dieAllowed)
+}
+
+// beginOp starts the recording of one protocol operation: its FS trace and crash images.
+func (h *hist) beginOp(name string) (before string) {
+	h.sess.ops = nil
+	h.imgs = nil
+	if name == "createfam" {
+		h.takeImage(false) // the cut before the first FS operation: the family must still be creatable
+	}
+	return h.lastObs
+}
+
+// finishOp emits the protocol line of the operation that just ran, checks its crash images and (maybe) dies.
+func (h *hist) finishOp(name, opLine, out, before string, dieAllowed bool) {
 	ops := append([]fsop(nil), h.sess.ops...)
 	h.c.Op(opLine, out)
 	after := before
 	if h.store != nil && !h.failed {
-		after = h.liveObs().propKey()
+		lo := h.liveObs()
+		after = lo.propKey()
+		// the allocator of the LIVE store: the number the next table gets is above every number the current
+		// versions reference (property clause "never reuses the number of a file the state still references")
+		for _, f := range lo.fams {
+			for _, n := range append(append([]int64{}, f.files...), f.rollup...) {
+				if n >= lo.next {
+					h.c.Fail("fileno-not-fresh-live", fmt.Sprintf("after %s: family %s references table %d but the live store's next file number is %d",
+						name, f.name, n, lo.next))
+				}
+			}
+		}
 	}
 	// codec tie: every record the implementation wrote is re-encoded / decoded by the model
 	for _, o := range ops {
@@ -1713,7 +1734,7 @@ func runCase(c *core.Ctx, i int, maxOps int) error {
 }
 
 // nScenarios directed histories run first in every seed (values are still drawn from the case's PRNG).
-const nScenarios = 5
+const nScenarios = 6
 
 func (h *hist) randKVs(n int) [][2]int64 {
 	var kvs [][2]int64
@@ -1821,6 +1842,41 @@ func runScenario(h *hist, which int) {
 		closeS()
 		open()
 		step(func() { h.flushNow("10", false) })
+		closeS()
+		open()
+	case 5:
+		// concurrent committers of one store: a bookkeeping commit of family 10 is in flight while flushes of
+		// family 11 AND of family 10 allocate numbers and commit at every point of the commit at which
+		// vs.mutex is not held (hand-over-hand schedule, see sched.go); then cleanup, crash images, reopen, flushes
+		h.c.Branch("scenario:concurrent-committers")
+		step(func() { h.doCreateFamily("11", 3) })
+		step(func() { h.flushNow("10", true) })
+		step(func() { h.flushNow("11", false) })
+		chunk := func() {
+			step(func() { h.doFlushStart("11", nil, h.randKVs(2)) })
+			step(func() { h.doFlushStart("10", [][2]int64{{1, int64(h.rng.Intn(1000))}}, h.randKVs(2)) })
+			step(func() {
+				if _, ok := h.flushers["11"]; ok {
+					h.doFlushCommit("11")
+				}
+			})
+			step(func() {
+				if _, ok := h.flushers["10"]; ok {
+					h.doFlushCommit("10")
+				}
+			})
+		}
+		step(func() {
+			h.doSplitEdit("10", []string{fmt.Sprintf("nref,%s,%d,%d", hex.EncodeToString([]byte("s1")), 1+h.rng.Intn(2), 2+h.rng.Intn(5))},
+				[]func(){chunk, chunk, chunk, chunk})
+		})
+		step(func() { h.flushNow("11", false) })
+		step(func() { h.doCompact("10") })
+		step(func() { h.doCompact("11") })
+		closeS()
+		open()
+		step(func() { h.flushNow("10", false) })
+		step(func() { h.flushNow("11", false) })
 		closeS()
 		open()
 	case 3:
